@@ -13,7 +13,8 @@
    process-wide pseudo random suffix; the model takes the names as a parameter ([tmps], one
    per change) and the theorems assume each is absent from its directory when used.
 
-   Not modelled: ReceiveOpt.Filter / MetadataOnly / NotifyHashed (nil; Merge IS modelled), Differ other than
+   ReceiveOpt.Merge is modelled here, ReceiveOpt.MetadataOnly in Model/RecvMeta.v.
+   Not modelled: ReceiveOpt.Filter / NotifyHashed (nil), Differ other than
    DiffMetadata, DAC permission checks (the receiver runs as root), concurrency: the walk of
    the old destination is taken up front (see the note at [old_listing]). *)
 From Coq Require Import List NArith Bool.
@@ -136,7 +137,8 @@ Definition dw_create (c : ctx) (f : fs) (np : bytes) (st : stat) : fs * bool * m
   let m := st_mode st in
   if mode_is_dir m then
     let (f1, r) := sys_mkdir c f np (unix_perm m) in (f1, negb (is_err r), MOther)
-  else if has_bits m ModeDevice || has_bits m ModeNamedPipe then
+  else if (has_bits m ModeDevice || has_bits m ModeNamedPipe) && is_nil (st_linkname st) then
+    (* a further name of a device or fifo (Linkname set) is a hard link like any other *)
     let typ := if has_bits m ModeCharDevice then S_IFCHR
                else if has_bits m ModeNamedPipe then S_IFIFO else S_IFBLK in
     let (f1, r) := sys_mknod c f np typ (N.land m perm_mask) (mkdev (st_devmajor st) (st_devminor st)) in
